@@ -443,6 +443,40 @@ func TestC15Layout(t *testing.T) {
 			}
 		}
 		labels := append([]string{}, c.Labels...)
+		// A more preferred cmap key holding a subtable in a format the library
+		// has no decoder for (format 13, "many-to-one range mappings", as in
+		// last-resort fonts): the font still has its usable subtable, so text
+		// is laid out exactly as before - or, by an implementation that reads
+		// format 13, through that subtable, which maps nothing here.
+		if _, has := f.CMapTable[cmap.Key{PlatformID: 3, EncodingID: 10}]; !has && rapid.Bool().Draw(t, "exoticPreferredSubtable") {
+			f2 := f.Clone()
+			f2.CMapTable = cmap.Table{}
+			for k, v := range f.CMapTable {
+				f2.CMapTable[k] = v
+			}
+			// one group mapping U+E000..U+E000 to glyph 0
+			f2.CMapTable[cmap.Key{PlatformID: 3, EncodingID: 10}] = []byte{0, 13, 0, 0, 0, 0, 0, 28, 0, 0, 0, 0, 0, 0, 0, 1,
+				0, 0, 0xE0, 0, 0, 0, 0xE0, 0, 0, 0, 0, 0}
+			var l3 *sfnt.Layouter
+			var err3 error
+			if pn := guard.Try(func() { l3, err3 = f2.NewLayouter(lang, gsubF, gposF) }); pn != nil {
+				t.Fatalf("NewLayouter panicked with an additional (3,10) format 13 cmap subtable: %s\n%s", pn, ctx())
+			}
+			if err3 != nil {
+				t.Fatalf("NewLayouter fails once the font has an additional (3,10) cmap subtable in format 13, although its other subtables are usable: %v\n%s", err3, ctx())
+			}
+			for _, s := range strs {
+				a, b := infoStr(l.Layout(s)), infoStr(l3.Layout(s))
+				allNotdef := true
+				for _, g := range l3.Layout(s) {
+					allNotdef = allNotdef && g.GID == 0
+				}
+				if a != b && !allNotdef {
+					t.Fatalf("Layout(%q) changes when a (3,10) format 13 cmap subtable is added: %s -> %s\n%s", s, a, b, ctx())
+				}
+			}
+			labels = append(labels, "exotic-preferred-cmap-subtable")
+		}
 		if fired {
 			labels = append(labels, "rule-fired")
 		}
